@@ -204,7 +204,7 @@ func scenC19(x *Exec) {
 			s.Spawn("churn-admin", "admin", "relay1", func() {
 				simrt.Sleep(time.Duration(p.ChurnAfterUs) * time.Microsecond)
 				if err := unrelatedChurn(bt.T, p.Churn); err != nil {
-					s.Probe("churn.removal_failed")
+					s.Probe("churn.removal_failed: " + err.Error())
 					s.Logf("churn: %v", err)
 				}
 				s.Probe("c19.unrelated_entries_added_and_removed")
